@@ -72,6 +72,10 @@ def judge(case):
             elif not isinstance(gsig, str) or not gsig or gsig == pinned.NA:
                 out.bad("cellsig-band-missing", f"{tag}: CELLSIG_{k:02d}={gsig!r} for defined signal {sid}")
                 break
+            elif gsig == wcode:
+                out.bad("cellsig-band-is-rinex-code", f"{tag}: CELLSIG_{k:02d}={gsig!r} under the band "
+                        f"option is the RINEX code of signal {sid}")
+                break
         elif gsig != wcode:
             out.bad("cellsig-na-marker" if wcode == pinned.NA else "cellsig-wrong",
                     f"{tag}: CELLSIG_{k:02d}={gsig!r}, signal ID {sid} is {wcode!r} in RTCM 10403.3")
